@@ -27,7 +27,7 @@ CHECKS["C14"] = dict(
 
 CHECKS["C01"] = dict(
     pkg="c01", level="exploration",
-    props=[dict(name="TestPropNewestWins", quick=360, thorough=16 * 2500, shards_quick=12, shards_thorough=16)],
+    props=[dict(name="TestPropNewestWins", quick=360, thorough=16 * 5000, shards_quick=12, shards_thorough=16)],
     rule="rapid draws 2-4 targets among three nodes and four edges (one node mirrored under two parents, the root's own "
          "edge), per target 1-10 identities from a colliding alphabet (type+key concatenations that coincide, key \"\"/\"0\" "
          "spellings), per identity 1-5 points with distinct timestamps (dense, +-1 ns, pre-1970, near int64 limits) and "
@@ -362,7 +362,7 @@ CHECKS["C15"] = dict(
 
 CHECKS["C08"] = dict(
     pkg="c08", level="exploration",
-    props=[dict(name="TestPropToldOfForeignChanges", quick=480, thorough=16 * 2500, shards_quick=12, shards_thorough=16, timeout_quick=900, timeout_thorough=7200)],
+    props=[dict(name="TestPropToldOfForeignChanges", quick=480, thorough=16 * 8000, shards_quick=12, shards_thorough=16, timeout_quick=900, timeout_thorough=7200)],
     rule="a real instance plus client.NewManager for a harness-defined node type Probe (description, value, string slice, map, "
          "edge fields, child list probeKid) whose instrumented client records every Points/EdgePoints callback; tree: P "
          "under the root with two probeKid children, a grandchild, and an unrelated sibling; in a third of the cases P is "
@@ -413,7 +413,7 @@ CHECKS["C07"] = dict(
 
 CHECKS["C02"] = dict(
     pkg="c02", level="exploration",
-    props=[dict(name="TestPropConverge", quick=60, thorough=16 * 20, shards_quick=12, shards_thorough=16, shrinktime="120s",
+    props=[dict(name="TestPropConverge", quick=60, thorough=16 * 200, shards_quick=12, shards_thorough=16, shrinktime="120s",
                 timeout_quick=1800, timeout_thorough=10800)],
     rule="two real instances on loopback TCP (upstream 'cloud', downstream 'dev1'); on the downstream client.NewManager runs "
          "client.NewSyncClient for a sync node with period 1 s. After the initial catch-up a history of 6-20 steps is issued on "
@@ -438,7 +438,7 @@ CHECKS["C02"] = dict(
 CHECKS["C04"] = dict(
     pkg="c04", level="fault_enumeration",
     build_cmds=[dict(pkg="./cmd/crashsup", out="crashsup"), dict(pkg="./cmd/crashwriter", out="crashwriter")],
-    props=[dict(name="TestPropCrashAnywhere", quick=24, thorough=32, shards_quick=12, shards_thorough=16, shrinktime="60s",
+    props=[dict(name="TestPropCrashAnywhere", quick=24, thorough=128, shards_quick=12, shards_thorough=16, shrinktime="60s",
                 timeout_quick=1800, timeout_thorough=14400)],
     rule="a child process (cmd/crashwriter) opens a store on a fresh file and replays a rapid-drawn history of 5-25 acknowledged "
          "batches (node creation edge-first or points-first, node-point batches of 1-5 points, edge-point batches with "
